@@ -52,6 +52,15 @@ def cases(tier, seed):
     return out
 
 
+def esc(text):
+    """What can be recorded of a text: un-encodable characters (lone surrogates) appear escaped."""
+    try:
+        text.encode('utf-8')
+        return text
+    except UnicodeEncodeError:
+        return text.encode('utf-8', 'backslashreplace').decode('utf-8')
+
+
 def limit_sets():
     out = []
     for v in VARS:
@@ -102,8 +111,12 @@ def run_param(ctx, desc):
     elif kind == 'string':
         leaves['s'] = 'q' * size
         leaves['u'] = 'é' * size
-        spec = {'nodes': [['list', [['l', 's'], ['l', 'u']]]], 'locals': [['a', ['c', 0]], ['s', ['l', 's']]]}
-        check_one(ctx, spec, dict(L, MAX_STRING_LENGTH=lim), None, leaves=leaves, param=desc)
+        # text that has to be escaped to be sent (lone surrogates): the limit applies to what is recorded
+        leaves['w'] = '\udcff' * size
+        leaves['x'] = ('ab\udcff' * size)[:size]
+        spec = {'nodes': [['list', [['l', 's'], ['l', 'u'], ['l', 'w'], ['l', 'x']]]], 'locals': [['a', ['c', 0]], ['s', ['l', 's']], ['w', ['l', 'w']]]}
+        for dl in (0, 1, 4, 5, 6):
+            check_one(ctx, spec, dict(L, MAX_STRING_LENGTH=lim + dl), None, leaves=leaves, param=desc)
     elif kind == 'manylocals':
         # `size` scalar locals + one big structure declared first / last: locals must not be crowded out
         names = ['v%d' % i for i in range(size)]
@@ -157,7 +170,7 @@ def check_one(ctx, spec, lim, case, leaves=None, param=None):
             if txt is not None:
                 full = None
                 if txt[0] == 'str':
-                    full = txt[1]
+                    full = esc(txt[1])
                     want_trunc = len(full) > S
                     if var.truncated != want_trunc and S >= 0:
                         ctx.violation('C05/truncated-flag/' + ('missing' if want_trunc else 'spurious'),
